@@ -242,7 +242,9 @@ func visitHarnesses(quick, thorough map[string]int) []harness {
 			// a type-expression rewriter: the interesting shapes (a parenthesised channel type inside a
 			// channel type ...) are three levels of node kinds deep; the default budget reached them
 			// in one run out of two
-			q = withBound(withBound(q, "paths", 40000), "wall_s", 45)
+			// ... and under the sampling order of a seeded run in one out of four; with lists of at most
+			// one element (field lists do not matter to this checker) every run reached them
+			q = withBound(withBound(withBound(q, "paths", 40000), "wall_s", 45), "B", 1)
 		}
 		if n == "mapKey" {
 			// the checker looks for whitespace at the ends of constant string keys: the text of
